@@ -117,7 +117,7 @@ def digests(prop, runfn, seed, idxs):
     out = {}
     for i in idxs:
         r = core.run_isolated(runfn, prop, seed=core.run_seed(seed, prop, i))
-        out[i] = (r.get("status"), r.get("digest"))
+        out[i] = (r.get("status"), r.get("digest") if r.get("status") == "ok" else str(r.get("err"))[-400:])
     return out
 
 
@@ -126,6 +126,11 @@ def determinism_selfcheck(prop, runfn, seed, n=8):
     idxs = list(range(n))
     a = digests(prop, runfn, seed, idxs)
     b = digests(prop, runfn, seed, idxs)
+    for d in (a, b):
+        # a run that did not complete (a child starved on an overloaded machine) is tried once more
+        for i in idxs:
+            if d[i][0] != "ok":
+                d.update(digests(prop, runfn, seed, [i]))
     env = dict(os.environ)
     env["PYTHONHASHSEED"] = "12345" if os.environ.get("PYTHONHASHSEED") != "12345" else "54321"
     env["TVSIM_NO_REEXEC"] = "1"
@@ -151,6 +156,7 @@ def determinism_selfcheck(prop, runfn, seed, n=8):
         "same_process_twice": same_proc,
         "fresh_interpreter_other_hashseed": fresh,
         "harness_errors": bad_status,
+        "harness_error_detail": [str(a[i]) for i in bad_status][:3],
     }
 
 
